@@ -1,6 +1,7 @@
 # Sizing and claim for C03 (conversions are total and memory-safe)
 SPEC = {
-    "quick": {"rc_cases": 10000, "rc_procs": 12, "enum": True},
+    "variants": {"": [], "uchar": ["-funsigned-char"]},   # the second build variant uses an unsigned plain char (-funsigned-char: the ARM / AArch64 / PowerPC default); in the quick tier it runs a reduced number of generated cases and no enumerators
+    "quick": {"rc_cases": 10000, "rc_procs": 12, "enum": True, "variant_cfg": {"uchar": {"rc_cases": 5000, "rc_procs": 4, "enum": False}}},
     "thorough": {"rc_cases": 100000, "rc_procs": 12, "enum": True, "fuzz_secs": 240, "fuzz_workers": 12},
     "assumptions": [
         "harness/ref/ref_unicode.h is a correct reading of the tolerated/offending forms listed in C02 and of the standard encodings",
